@@ -269,4 +269,42 @@ private def exOrder : List (List (Tok SAtom)) :=
 /-- Non-vacuity: `A = B + C; C = A * 2; B = C[-1]` runs as A, B, C. -/
 example : symbolOrder exOrder = ["A", "B", "C"] ∧ (orderStmts exOrder).filterMap lhsName = ["A", "B", "C"] := by decide
 
+/-! ### Non-vacuity (review): every hypothesis-carrying theorem instantiated at a concrete non-trivial instance -/
+
+/-- `index_injective`: its hypothesis holds at `k = k' = -12`, and it separates `t-12` from `t+12`. -/
+example : ((-12 : Int) = -12) ∧ tidx (-12) ≠ tidx 12 :=
+  ⟨index_injective (k := -12) (k' := -12) rfl, fun h => absurd (index_injective h) (by decide)⟩
+
+/-- `code_denotes_script` / `equation_denotes_script` / `equation_denotes_code` on `exTs` (18 tokens, a replaced
+    call, a namespaced call, a two-digit lag, a lead and a conditional), every operator interpretation/store. -/
+example (ops : Ops F) (loc : String → Int) (s : Store F) (t : Int) :
+    (∃ ceq, parseStmt (codeForm exTs) = some ceq ∧
+      denote ops (readCode s t loc) ceq.rhs =
+        denote (scriptOps ops) (readSpec s t loc) ((parseStmt exTs).get (by decide)).rhs ∧
+      assignCode ops loc ceq.lhs ceq.rhs s t = assign ops loc ((parseStmt exTs).get (by decide)) s t) ∧
+    (∃ neq, parseStmt (eqForm exTs) = some neq ∧
+      denote (scriptOps ops) (readCode s t loc) neq.rhs =
+        denote (scriptOps ops) (readSpec s t loc) ((parseStmt exTs).get (by decide)).rhs ∧
+      assignCode (scriptOps ops) loc neq.lhs neq.rhs s t = assign ops loc ((parseStmt exTs).get (by decide)) s t) ∧
+    (∃ neq ceq, parseStmt (eqForm exTs) = some neq ∧ parseStmt (codeForm exTs) = some ceq ∧
+      assignCode (scriptOps ops) loc neq.lhs neq.rhs s t = assignCode ops loc ceq.lhs ceq.rhs s t) :=
+  have h : parseStmt exTs = some ((parseStmt exTs).get (by decide)) := (Option.some_get _).symm
+  ⟨code_denotes_script ops loc exTs _ h s t, equation_denotes_script ops loc exTs _ h s t,
+   equation_denotes_code ops loc exTs _ h s t⟩
+
+/-- `replacement_exact`: both inner hypotheses are satisfiable (`abs` is no key; `exp` is a key). -/
+example : replaceFn "abs" = "abs" ∧ replaceFn "exp" = "np.exp" :=
+  ⟨(replacement_exact "abs").1 (by decide), (replacement_exact "exp").2 "np.exp" (by decide)⟩
+
+/-- `evalPass_frame` on the two-equation pass `exEqs` at `t = 3`: `Y[2]` and `X[3]` are no LHS cell. -/
+example : evalPass exOps (fun _ => 0) exEqs exStore 3 "Y" 2 = exStore "Y" 2 ∧
+    evalPass exOps (fun _ => 0) exEqs exStore 3 "X" 3 = exStore "X" 3 :=
+  ⟨evalPass_frame exOps _ exEqs exStore 3 "Y" 2 (by decide), evalPass_frame exOps _ exEqs exStore 3 "X" 3 (by decide)⟩
+
+/-- `evaluate_order_members` on the three-statement program `exOrder` (statement order A, C, B). -/
+example : ∀ ts, ts ∈ orderStmts exOrder ↔ ts ∈ exOrder :=
+  evaluate_order_members exOrder
+    (fun ts h => Option.isSome_iff_exists.mp ((by decide : ∀ ts ∈ exOrder, (parseStmt ts).isSome = true) ts h))
+    (by decide)
+
 end Fsic.C01
